@@ -4,9 +4,15 @@
 import json, os, shutil, subprocess, sys
 pid, k = sys.argv[1], sys.argv[2]
 V = "/verif"
-st = "%s/seeded_staging/%s" % (V, pid)
+args = sys.argv[3:]
+stg, out_k = pid, k
+if "--staging" in args:
+    stg = args[args.index("--staging") + 1]; del args[args.index("--staging"):args.index("--staging") + 2]
+if "--as" in args:
+    out_k = args[args.index("--as") + 1]; del args[args.index("--as"):args.index("--as") + 2]
+st = "%s/seeded_staging/%s" % (V, stg)
 diff, demo, txt = "%s/m%s.diff" % (st, k), "%s/m%s_demo.py" % (st, k), "%s/m%s.txt" % (st, k)
-p = subprocess.run([sys.executable, V + "/tools/seed_eval.py", pid, diff, demo] + sys.argv[3:], capture_output=True, text=True)
+p = subprocess.run([sys.executable, V + "/tools/seed_eval.py", pid, diff, demo] + args, capture_output=True, text=True)
 try:
     r = json.loads(p.stdout[p.stdout.index("{"):])
 except Exception:
@@ -15,7 +21,7 @@ confirmed = r["demo_pristine_rc"] == 0 and r["demo_changed_rc"] != 0 and r.get("
 print(json.dumps({"confirmed": confirmed, "detected": r["detected"], "with_failing_input": r["with_failing_input"], "lines": r["check_lines"][:3],
                   "demo": [r["demo_pristine_rc"], r["demo_changed_rc"]], "suite": r.get("suite_tail")}))
 if confirmed:
-    d = "%s/seeded/%s-%s" % (V, pid, k)
+    d = "%s/seeded/%s-%s" % (V, pid, out_k)
     os.makedirs(d, exist_ok=True)
     shutil.copy(diff, d + "/patch.diff"); shutil.copy(demo, d + "/demo.py")
     meta = {"property": pid, "breaks": "see description", "description": open(txt).read() if os.path.exists(txt) else "",
